@@ -206,3 +206,13 @@ def check(ctx, run):  # noqa: F811
     _check_before_purity(ctx, run)
     from .c02 import no_memoised_state
     no_memoised_state(ctx, run, "C12.R7", "a payoff remembered from an earlier evaluation is returned after the contract or the paths changed")
+
+
+_check_before_ctors = check
+
+
+def check(ctx, run):  # noqa: F811
+    _check_before_ctors(ctx, run)
+    from ..ctors import ctor_rule
+    from ..primaries import primary_classes
+    ctor_rule(ctx, run, "C12.R8", ["pfhedge.instruments.derivative." + c for c in ("european.EuropeanOption", "lookback.LookbackOption", "european_binary.EuropeanBinaryOption", "american_binary.AmericanBinaryOption", "cliquet.EuropeanForwardStartOption", "variance_swap.VarianceSwap")], {"strike", "call", "start", "maturity", "underlier"}, "the contract terms the payoff reads are not the ones the derivative was created with")
